@@ -149,7 +149,7 @@ def canary(trace_module, judge, trace_file, verdicts, work, ops):
 
 
 def run(prop, judge, tier, seed, t0, cls="monoidal", invariants=(), drift=False, extra_hook=None,
-        families=False):
+        families=False, keep_states=False):
     cfgt = TIERS[tier]
     ops = OPS[prop]
     A = get_adapter(cls)
@@ -245,6 +245,8 @@ def run(prop, judge, tier, seed, t0, cls="monoidal", invariants=(), drift=False,
             coverage["states"] += fam_info["states"]
             coverage["transitions"] += fam_info["transitions"]
         hook_files = hooks + hooks2
+        if keep_states:
+            coverage["_states"], coverage["_seed"] = states, seed
         if extra_hook:
             extra_hook(work, hook_files, coverage, rejected, tier)
         return coverage, rejected
